@@ -130,7 +130,15 @@ def run(res, tier, rng, table_diffs=()):
         if diff.obs(r["impl"]).startswith("ok") and st.get("halt", "0") != "0":
             return "values were left on the operand stack when the program ended (residue)"
         return None
-    run_cases(res, "C11", cases, budget=3000000, extra_oracle=residue)
+    sweep = gen2.offset_sweep_programs(1500 if tier == "quick" else 4000, full=(tier != "quick"))
+    want = {src: exp for src, exp in sweep}
+    cases += [("offset-sweep", src) for src, _ in sweep]
+
+    def residue_or_value(label, src, r):
+        if label == "offset-sweep" and diff.obs(r["impl"]).split(" | ")[0] != want[src]:
+            return "control flow depends on where the code lies: the same construct gives another value at this byte offset"
+        return residue(label, src, r)
+    run_cases(res, "C11", cases, budget=3000000, extra_oracle=residue_or_value)
     # K3 probes: stop/volgende under pending operands (known finding).  (a) the residue itself; (b) its
     # consequence for values: a loop left that way which is itself a later operand makes the enclosing
     # operator consume the residue instead of the earlier operand
